@@ -38,3 +38,48 @@ Proof.
   cbn [Nat.sub]. rewrite Nat.sub_0_r.
   mx_rw (rewrite ?src_from_non_zero_usize).
 Qed.
+
+(* ---- Arena::get_node_id: the pointer arithmetic.  The Vec's buffer is [len] slots of [size] bytes starting at
+   address [base] (memory layout parameters); a `&Node<T>` is looked at as an address only. ---- *)
+From IT Require Import Value.
+Require Import Lia.
+
+Lemma src_get_node_id_inside dbg base size p a :
+  (0 < size)%Z -> (base <= p)%Z -> (p < base + Z.of_nat (length (nodes a)) * size)%Z ->
+  g_Arena_get_node_id dbg base size p a = (a, Ok (get_node_id a (InBuffer (Z.to_nat ((p - base) / size))))).
+Proof.
+  intros Hs Hlo Hhi. destruct a as [l ff lf]. cbn [nodes] in Hhi.
+  unfold g_Arena_get_node_id, get_node_id, usub. mred.
+  assert (Z.leb base p = true) as -> by (apply Z.leb_le; lia).
+  assert (Z.ltb p (base + Z.of_nat (length l) * size) = true) as -> by (apply Z.ltb_lt; lia).
+  mred.
+  assert ((Z.to_nat ((p - base) / size) < length l)%nat) as Hk.
+  { apply Nat2Z.inj_lt. rewrite Z2Nat.id by (apply Z.div_pos; lia).
+    apply Z.div_lt_upper_bound; lia. }
+  destruct (nth_error l (Z.to_nat ((p - base) / size))) as [n|] eqn:E.
+  - reflexivity.
+  - apply nth_error_None in E. lia.
+Qed.
+
+(* the address of slot k is resolved to slot k *)
+Lemma src_get_node_id_slot dbg base size k a :
+  (0 < size)%Z -> (k < length (nodes a))%nat ->
+  g_Arena_get_node_id dbg base size (base + Z.of_nat k * size) a = (a, Ok (get_node_id a (InBuffer k))).
+Proof.
+  intros Hs Hk. rewrite src_get_node_id_inside; try lia.
+  - replace (base + Z.of_nat k * size - base)%Z with (Z.of_nat k * size)%Z by lia.
+    rewrite Z.div_mul by lia. rewrite Nat2Z.id. reflexivity.
+  - apply Z.add_lt_mono_l. apply Z.mul_lt_mono_pos_r; lia.
+Qed.
+
+(* an address outside the buffer (another arena's buffer, a clone, the stack) is refused *)
+Lemma src_get_node_id_outside dbg base size p a :
+  (p < base \/ base + Z.of_nat (length (nodes a)) * size <= p)%Z ->
+  g_Arena_get_node_id dbg base size p a = (a, Ok (get_node_id a Elsewhere)).
+Proof.
+  intros H. destruct a as [l ff lf]. cbn [nodes] in H. unfold g_Arena_get_node_id, get_node_id. mred.
+  destruct H as [H|H].
+  - assert (Z.leb base p = false) as -> by (apply Z.leb_gt; lia). reflexivity.
+  - assert (Z.ltb p (base + Z.of_nat (length l) * size) = false) as -> by (apply Z.ltb_ge; lia).
+    destruct (Z.leb base p); reflexivity.
+Qed.
